@@ -364,12 +364,12 @@ func runC11(c *core.Case) *core.Result {
 		if cmd.Name != "update" || cmd.Coll != "colA" || cmd.Failed {
 			continue
 		}
-		for _, u := range cmd.Seqs["updates"] {
-			q, _ := u.Map()["q"].(bson.D)
-			if id, _ := q.Map()["_id"].(string); id != key {
+		// judged by what the write leaves stored (the post-image the stand-in records), not by the
+		// form of the update statement: a replacement and an equivalent $set / $unset are the same
+		for _, doc := range cmd.Post {
+			if id, _ := doc.Map()["_id"].(string); id != key {
 				continue
 			}
-			doc, _ := u.Map()["u"].(bson.D)
 			ver := fakemongo.Num(doc.Map()["_orda_ver_"])
 			if _, ok := doc.Map()["_orda_ver_"]; !ok {
 				return c.Violation("user-doc-without-version", "a write to the user collection carries no _orda_ver_")
